@@ -11,9 +11,11 @@ import (
 )
 
 // RequestCloser can cancel request on a network error
+// (the subscriber identifies the response the message was sent for: the request ID
+// may meanwhile be in use by another response)
 type RequestCloser interface {
-	TerminateRequest(requestID graphsync.RequestID)
-	CloseWithNetworkError(requestID graphsync.RequestID)
+	TerminateRequest(requestID graphsync.RequestID, s *subscriber)
+	CloseWithNetworkError(requestID graphsync.RequestID, s *subscriber)
 }
 
 type subscriber struct {
@@ -33,10 +35,10 @@ func (s *subscriber) OnNext(_ notifications.Topic, event notifications.Event) {
 	}
 	switch responseEvent.Name {
 	case messagequeue.Error:
-		s.requestCloser.CloseWithNetworkError(s.request.ID())
+		s.requestCloser.CloseWithNetworkError(s.request.ID(), s)
 		responseCode := responseEvent.Metadata.ResponseCodes[s.request.ID()]
 		if responseCode.IsTerminal() {
-			s.requestCloser.TerminateRequest(s.request.ID())
+			s.requestCloser.TerminateRequest(s.request.ID(), s)
 		}
 		s.networkErrorListeners.NotifyNetworkErrorListeners(s.p, s.request, responseEvent.Err)
 	case messagequeue.Sent:
@@ -46,7 +48,7 @@ func (s *subscriber) OnNext(_ notifications.Topic, event notifications.Event) {
 		}
 		responseCode := responseEvent.Metadata.ResponseCodes[s.request.ID()]
 		if responseCode.IsTerminal() {
-			s.requestCloser.TerminateRequest(s.request.ID())
+			s.requestCloser.TerminateRequest(s.request.ID(), s)
 			s.completedListeners.NotifyCompletedListeners(s.p, s.request, responseCode)
 		}
 	}
